@@ -55,6 +55,12 @@ class ChainGen:
                 op = '=='
             ops.append(op)
             parts.append(self.operand(container=op in ('in', 'not in')))
+        if self.typed and ops and ops[0] in ('in', 'not in') and len(ops) >= 2:
+            # known finding: the C operand of the link after a membership test is cast to PyObject*; with a C double
+            # that does not even compile (and would hide the whole module), so only integer C operands go there
+            parts = parts[:2] + [(('ci', 'C') if p == ('cd', 'C') else p) for p in parts[2:]]
+            if 'ci' not in self.cvars and any(p == ('ci', 'C') for p in parts[2:]):
+                parts = parts[:2] + [(('cl', 'C') if p == ('ci', 'C') else p) for p in parts[2:]]
         # identity tests on C values have no Python meaning (a C double has no identity): use == there
         for j, op in enumerate(ops):
             if op in ('is', 'is not') and (parts[j][1] == 'C' or parts[j + 1][1] == 'C'):
